@@ -1063,24 +1063,65 @@ theorem reqBlock_entry (D : Disc) (r : Request) (q : Nat → Nat → ℚ) (hx0 :
 theorem request_block_entry_fd (D : Disc) (x : Vec) (s : Step) (r : Request)
     (hnd : (compsOf D.inSizes r.ins).Nodup) (hr : ∀ g ∈ compsOf D.inSizes r.ins, g < x.length)
     (hx0 : r.xidx = []) (a b r' c' : Nat) (ha : a < r.outs.length) (hb : b < r.ins.length)
-    (hr' : r' < D.outSizes.getD r.outs[a] 0) (hc' : c' < D.inSizes.getD r.ins[b] 0) :
-    let pos := ((r.ins.map (fun n => D.inSizes.getD n 0)).take b).sum + c'
-    let g := (D.inSizes.take r.ins[b]).sum + c'
-    let j := (D.outSizes.take r.outs[a]).sum + r'
+    (hr' : r' < D.outSizes.getD r.outs[a] 0) (hc' : c' < D.inSizes.getD r.ins[b] 0)
+    (pos g j : Nat) (hpos : pos = ((r.ins.map (fun n => D.inSizes.getD n 0)).take b).sum + c')
+    (hg : g = (D.inSizes.take r.ins[b]).sum + c') (hj : j = (D.outSizes.take r.outs[a]).sum + r') :
     getR ((reqBlock D r (reqCols .fd false D x s r) a b).getD r' []) c' =
       (getR (D.f (bump x g (s.at pos))) j - getR (D.f x) j) / s.at pos := by
-  intro pos g j
+  subst hpos hg hj
   have hC := compsOf_get D.inSizes r.ins b c' hb hc'
+  have hget : (compsOf D.inSizes r.ins).getD
+      (((r.ins.map (fun n => D.inSizes.getD n 0)).take b).sum + c') 0 = (D.inSizes.take r.ins[b]).sum + c' := by
+    rw [List.getD_eq_getElem?_getD, hC]; rfl
   rw [request_columns_fd D x s r hnd hr (by simp [hx0]), hx0, effIndices_all,
     reqBlock_entry D r _ hx0 a b r' c' ha hb hr' hc']
-  simp only [List.getD_eq_getElem?_getD, hC, Option.getD_some]
-  rfl
+  simp only [hget]
+
+/-- Centered differences, all components: every entry of every block of a request is the centered quotient of
+    the right output component along the right input component, at the current point. -/
+theorem request_block_entry_cd (D : Disc) (x : Vec) (s : Step) (r : Request)
+    (hnd : (compsOf D.inSizes r.ins).Nodup) (hr : ∀ g ∈ compsOf D.inSizes r.ins, g < x.length)
+    (hx0 : r.xidx = []) (a b r' c' : Nat) (ha : a < r.outs.length) (hb : b < r.ins.length)
+    (hr' : r' < D.outSizes.getD r.outs[a] 0) (hc' : c' < D.inSizes.getD r.ins[b] 0)
+    (pos g j : Nat) (hpos : pos = ((r.ins.map (fun n => D.inSizes.getD n 0)).take b).sum + c')
+    (hg : g = (D.inSizes.take r.ins[b]).sum + c') (hj : j = (D.outSizes.take r.outs[a]).sum + r') :
+    getR ((reqBlock D r (reqCols .cd false D x s r) a b).getD r' []) c' =
+      (getR (D.f (bump x g (s.at pos))) j - getR (D.f (bump x g (-(s.at pos)))) j)
+        / absR (s.at pos - -(s.at pos)) := by
+  subst hpos hg hj
+  have hC := compsOf_get D.inSizes r.ins b c' hb hc'
+  have hget : (compsOf D.inSizes r.ins).getD
+      (((r.ins.map (fun n => D.inSizes.getD n 0)).take b).sum + c') 0 = (D.inSizes.take r.ins[b]).sum + c' := by
+    rw [List.getD_eq_getElem?_getD, hC]; rfl
+  rw [request_columns_cd D x s r hnd hr (by simp [hx0]), hx0, effIndices_all,
+    reqBlock_entry D r _ hx0 a b r' c' ha hb hr' hc']
+  simp only [hget]
+
+/-- Complex step, all components: every entry of every block of a request is `Im f_j(x + i·δ·e_g)/δ` for the
+    right output component `j` and the right global input component `g`, `δ = x_g·h` (`h` when `x_g = 0`). -/
+theorem request_block_entry_cs (D : Disc) (x : Vec) (s : Step) (r : Request)
+    (hnd : (compsOf D.inSizes r.ins).Nodup) (hr : ∀ g ∈ compsOf D.inSizes r.ins, g < x.length)
+    (hx0 : r.xidx = []) (a b r' c' : Nat) (ha : a < r.outs.length) (hb : b < r.ins.length)
+    (hr' : r' < D.outSizes.getD r.outs[a] 0) (hc' : c' < D.inSizes.getD r.ins[b] 0)
+    (pos g j : Nat) (hpos : pos = ((r.ins.map (fun n => D.inSizes.getD n 0)).take b).sum + c')
+    (hg : g = (D.inSizes.take r.ins[b]).sum + c') (hj : j = (D.outSizes.take r.outs[a]).sum + r') :
+    getR ((reqBlock D r (reqCols .cs false D x s r) a b).getD r' []) c' =
+      ((D.fc ((x.map GRat.ofRat).set g ⟨getR x g, xnnz x g * s.at pos⟩)).getD j ⟨0, 0⟩).im
+        / (xnnz x g * s.at pos) := by
+  subst hpos hg hj
+  have hC := compsOf_get D.inSizes r.ins b c' hb hc'
+  have hget : (compsOf D.inSizes r.ins).getD
+      (((r.ins.map (fun n => D.inSizes.getD n 0)).take b).sum + c') 0 = (D.inSizes.take r.ins[b]).sum + c' := by
+    rw [List.getD_eq_getElem?_getD, hC]; rfl
+  rw [request_columns_cs D x s r hnd hr (by simp [hx0]), hx0, effIndices_all,
+    reqBlock_entry D r _ hx0 a b r' c' ha hb hr' hc']
+  simp only [hget]
 
 theorem op_request_fst (sch : Scheme) (par : Bool) (D : Disc) (st : JacApprox) (x : Vec) (r : Request) :
     (st.op sch par D (.request x r)).1 = st.create r := by
   unfold JacApprox.op
   simp only [JacApprox.create]
-  split <;> rfl
+  by_cases h : (!reqValid D st.step r) = true <;> simp [h]
 
 /-- The step read by the next request is the last one assigned. -/
 theorem run_step (sch : Scheme) (par : Bool) (D : Disc) (st : JacApprox) (ops : List JOp) :
